@@ -14,8 +14,9 @@ import OpcuaModel.Model.NodeIdLemmas
 
   Since the repair of the parser (a text starting with "s=" is no longer cut
   at ';'; finding C04.string-ns0-semicolon, fixed) the round trip is proved at
-  FULL strength: for every well-formed NodeID, no guard.  Still recorded:
-  C04.nsu-uri-semicolon (a namespace URI containing ';' cannot be named).
+  FULL strength: for every well-formed NodeID, no guard.  Since the repair of
+  C04.nsu-uri-semicolon (the URI part of `nsu=` is unescaped: `%3B`, `%25`) every
+  namespace URI of the table can be named (`C04_nsu_resolves`, no guard).
 -/
 namespace Opcua.Props.C04
 open Opcua Opcua.NodeIdText
@@ -175,34 +176,49 @@ theorem C04_parse_empty : parseNodeID [] = some (newTwoByte 0) := by decide
 
 /-! ### namespace URIs (`nsu=`) against a namespace table -/
 
-/-- a URI without ';' that the table contains resolves: `nsu=<uri>;<id>` names
-    the same namespace index and identifier as `ns=<index of uri>;<id>`, for
-    every identifier text (also when both fail) -/
-theorem C04_nsu_resolves_partial (tbl : List Text) (u rest : Text) (k : Nat) (hu : 59 ∉ u)
+/-- the escape of the reserved characters is undone by the parser and leaves no ';' in the text -/
+theorem C04_nsu_escape_roundtrip (u : Text) : unescNsu (escNsu u) = u ∧ 59 ∉ escNsu u :=
+  ⟨unescNsu_escNsu u, escNsu_no_semicolon u⟩
+
+/-- NAMESPACE URIs, full strength (since the repair of C04.nsu-uri-semicolon): EVERY URI the
+    table contains — any bytes, ';' and '%' included — is named by its escaped text form:
+    `nsu=<esc u>;<id>` gives the same namespace index and identifier as `ns=<index of u>;<id>`,
+    for every identifier text (also when both fail) -/
+theorem C04_nsu_resolves (tbl : List Text) (u rest : Text) (k : Nat)
     (hk : tbl.findIdx? (· == u) = some k) (hk' : k ≤ 65535) :
-    (parseExpanded ([110, 115, 117, 61] ++ u ++ 59 :: rest) (some tbl)).map nodeKey =
+    (parseExpanded ([110, 115, 117, 61] ++ escNsu u ++ 59 :: rest) (some tbl)).map nodeKey =
     (parseExpanded ([110, 115, 61] ++ dec k ++ 59 :: rest) (some tbl)).map nodeKey := by
-  rw [parseExpanded_nsu u rest tbl hu, hk, parseExpanded_nsIdx k hk']
+  rw [parseExpanded_nsu (escNsu u) rest tbl (escNsu_no_semicolon u), unescNsu_escNsu, hk, parseExpanded_nsIdx k hk']
   simp only [Nat.mod_eq_of_lt (show k < 65536 by omega)]
   exact parseIdent_nsu_key k u rest
 
 /-- … and a URI the table does not contain is refused -/
-theorem C04_nsu_unknown (tbl : List Text) (u rest : Text) (hu : 59 ∉ u) (hk : tbl.findIdx? (· == u) = none) :
-    parseExpanded ([110, 115, 117, 61] ++ u ++ 59 :: rest) (some tbl) = none := by
-  rw [parseExpanded_nsu u rest tbl hu, hk]
+theorem C04_nsu_unknown (tbl : List Text) (u rest : Text) (hk : tbl.findIdx? (· == u) = none) :
+    parseExpanded ([110, 115, 117, 61] ++ escNsu u ++ 59 :: rest) (some tbl) = none := by
+  rw [parseExpanded_nsu (escNsu u) rest tbl (escNsu_no_semicolon u), unescNsu_escNsu, hk]
+
+/-- texts without escape sequences are read as before the repair: a URI without '%' names itself -/
+theorem C04_nsu_plain_unchanged (u : Text) (h : 37 ∉ u) : unescNsu u = u := by
+  induction u with
+  | nil => rfl
+  | cons c r ih =>
+    have hc : c ≠ 37 := fun e => h (by simp [e])
+    have hr : 37 ∉ r := fun e => h (List.mem_cons_of_mem _ e)
+    simp [unescNsu, hc, ih hr]
 
 def txt (s : String) : Text := s.toUTF8.toList.map (·.toNat)
 
-/-- finding C04.nsu-uri-semicolon: a namespace URI containing ';' cannot be
-    named (the text is cut at the first ';'; there is no %3B unescaping) — with
-    the table ["urn:a", "urn:a;b"] the text `nsu=urn:a;b;i=1` silently parses to
-    the STRING node "b;i=1" of namespace 0, not to `ns=1;i=1`; with the table
-    ["urn:a;b"] it is an error -/
-theorem C04_finding_nsu_semicolon :
+/-- the former finding C04.nsu-uri-semicolon as a regression: with the table
+    ["urn:a", "urn:a;b"] the URI "urn:a;b" is named by `nsu=urn:a%3Bb;i=1` (and `%3b`), "a%b" by
+    `a%25b`, `%253B` is the literal text "%3B"; the raw text `nsu=urn:a;b;i=1` keeps its
+    grammatical reading (URI "urn:a", bare String id "b;i=1") -/
+theorem C04_former_nsu_witness :
+    (parseExpanded (txt "nsu=urn:a%3Bb;i=1") (some [txt "urn:a", txt "urn:a;b"])).map nodeKey = some (1, Ident.num 1) ∧
+    (parseExpanded (txt "nsu=urn:a%3bb;i=1") (some [txt "urn:a", txt "urn:a;b"])).map nodeKey = some (1, Ident.num 1) ∧
+    (parseExpanded (txt "nsu=a%25b;i=1") (some [txt "x", txt "y", txt "a%b"])).map nodeKey = some (2, Ident.num 1) ∧
+    (parseExpanded (txt "nsu=a%253Bb;i=1") (some [txt "a;b", txt "a%3Bb"])).map nodeKey = some (1, Ident.num 1) ∧
     (parseExpanded (txt "nsu=urn:a;b;i=1") (some [txt "urn:a", txt "urn:a;b"])).map nodeKey
-      = some (0, Ident.str (txt "b;i=1")) ∧
-    (parseExpanded (txt "ns=1;i=1") (some [txt "urn:a", txt "urn:a;b"])).map nodeKey = some (1, Ident.num 1) ∧
-    parseExpanded (txt "nsu=urn:a;b;i=1") (some [txt "urn:a;b"]) = none := by
+      = some (0, Ident.str (txt "b;i=1")) := by
   decide +kernel
 
 /-! ### non-vacuity -/
